@@ -356,6 +356,9 @@ func c03RunAll(r *findings.Run, stats *c03Stats, deadline time.Time) {
 				return
 			}
 			pv = confirm(progs[i], ProgOpts{}, pv)
+			if pv.Symptom == "" {
+				return // a sandbox kill that did not repeat (counted in common.go)
+			}
 			r.Fail(kind+"="+names[i]+" symptom="+pv.Symptom, fmt.Sprintf("%s %s: %s (%s)", kind, names[i], pv.Symptom, pv.Detail), progReplay(pv, nil))
 		}
 	})
@@ -600,5 +603,5 @@ func C03() int {
 	r.Set("exhaustive", !stats.capped)
 	r.Set("rule", "explicit-state search over the abstract heap of two slice variables (alias relation + contents) for []int, []string, []bool: every operation sequence up to the all-paths depth, then breadth-first search with state merging up to the BFS depth; every history (shortest path + operation) is replayed as a TypeShell program on the real transpiler + bash with len and all elements of both variables printed after every step, and compared with the reference interpreter. states = distinct abstract heaps reached, transitions = operation applications, traces_validated_against_impl = programs whose real run agreed with the model. Plus index sweeps: for every string length 0..L all in-range (a,b) pairs for s[a:b], s[:b], s[a:], s[:], s[i], len, +, ==, !=, range; slice growth element by element with read-back.")
 	r.Assumef("state merging assumes two histories reaching the same abstract heap have the same futures in the implementation; the all-paths tier does not rely on it")
-	return r.Finish()
+	return finish(r)
 }
